@@ -34,7 +34,7 @@ def names_of(e) -> list[str]:
 
 def expr_stream(rng: random.Random, tier: str, n_random: int, depth_q: int = 4, depth_t: int = 6,
                 share: float = 0.0, kinds=gen.ALL, names=("x", "y", "z"), rules: bool = True,
-                rule_rounds: int = 2, pairs: bool = True):
+                rule_rounds: int = 2, pairs: bool = True, max_size: int | None = None):
     """(origin, expression) pairs: rule-directed patterns (every rule, every round), then random
     type-directed trees of mixed fragments and depths"""
     out = []
@@ -70,6 +70,8 @@ def expr_stream(rng: random.Random, tier: str, n_random: int, depth_q: int = 4, 
         nm = names[: 1 + (i % len(names))]
         g = gen.Gen(rng, names=nm, kinds=ks, share=share if i % 3 == 0 else 0.0)
         out.append(("random", g.expr(1 + i % maxd)))
+    if max_size:        # checks that run many operations per case leave the very large inputs to the others
+        out = [(o, e) for o, e in out if wire.size(e) <= max_size]
     return out
 
 
